@@ -121,13 +121,12 @@ class MediaList(cssutils.util._NewListBase):
         # must be at least one value!
         if not atleastone:
             ok = False
-            if not self.length:
-                self._wellformed = ok
             self._log.error('MediaQuery: No content.', error=xml.dom.SyntaxErr)
 
-        if ok or not self.length:
-            # a refused text leaves the list and its state as they are
-            self._wellformed = ok
+        if ok:
+            # (a refused text leaves the list and its state as they are: a new
+            # list starts out as not wellformed)
+            self._wellformed = True
 
         if ok:
             mediaTypes = []
